@@ -60,6 +60,18 @@ fn request_cases(base: &Req, thorough: bool) -> Vec<Case> {
         let r = Req { limit: l, id: i, ..base.clone() };
         v.push(mk(name, &r, r.prove_input(), Some(&r)));
     }
+    // well-formed requests of somebody who is NOT the member stored at the position (another limit, another secret, an
+    // empty position): the tree is the base request's; whatever is returned must carry a proof that verifies with the
+    // values returned with it (`verify`), the tree-bound verifier is not consulted
+    for (class, r) in [
+        ("limit-not-the-registered-one", Req { limit: big(50), id: big(1), ..base.clone() }),
+        ("limit-not-the-registered-one-larger", Req { limit: big(1000), id: big(999), ..base.clone() }),
+        ("secret-not-the-registered-one", Req { secret: &base.secret + big(1), ..base.clone() }),
+        ("position-holds-nobody", Req { index: base.index ^ 4, ..base.clone() }),
+        ("position-holds-nobody-far", Req { index: (base.index + (1 << 18)) % (1 << 20), ..base.clone() }),
+    ] {
+        v.push(Case { entry: "request-foreign".into(), class: class.into(), req: base.clone(), bytes: r.prove_input(), ci: None });
+    }
     for idx in [1u64 << 20, (1 << 20) + 1, 1 << 32, 1 << 63, u64::MAX] {
         let r = Req { index: idx, ..base.clone() };
         v.push(mk("index-outside-tree", &r, r.prove_input(), None));
@@ -235,7 +247,7 @@ impl C12 {
             let r = guard(|| -> Result<Vec<u8>, String> {
                 let mut o = Cursor::new(Vec::<u8>::new());
                 match c.entry.as_str() {
-                    "request" => rln.generate_rln_proof(rd(c.bytes.clone()), &mut o).map_err(|e| e.to_string())?,
+                    "request" | "request-foreign" => rln.generate_rln_proof(rd(c.bytes.clone()), &mut o).map_err(|e| e.to_string())?,
                     "witness" => rln.generate_rln_proof_with_witness(rd(c.bytes.clone()), &mut o).map_err(|e| e.to_string())?,
                     _ => rln.prove(rd(c.bytes.clone()), &mut o).map_err(|e| e.to_string())?,
                 }
